@@ -110,7 +110,12 @@ DefsB == << [A |-> D(Sh(2, 2), "PA"), B |-> D(Sh(3, 1), "PB")],
 PickGen3(ndefs) == \E x \in 1..ndefs : PickGen3For(DefsB[x])
 
 (* ---- dsDNA (C19) *)
-DsRec(names, circ, tag) == [fam |-> "dsdna", names |-> names, circ |-> circ, tag |-> tag]
+\* keys[r] = node key of residue r (what a .json file may choose), first = residue id of the first residue,
+\* rounds = 2: the added strand is completed once more in place
+DsRecK(names, circ, tag, keys, first, rounds) ==
+  [fam |-> "dsdna", names |-> names, circ |-> circ, tag |-> tag, keys |-> keys, first |-> first, rounds |-> rounds]
+KeysZero(n) == [r \in 1..n |-> r - 1]
+DsRec(names, circ, tag) == DsRecK(names, circ, tag, KeysZero(Len(names)), 1, 2)
 Letters(lo, hi) == SeqsUpTo(DNAS, lo, hi)
 LinNames(t) == Terminal("DNA", Translate("DNA", t))
 BadNames == {"DX", "A", "DA53", "GLY"}
@@ -125,16 +130,33 @@ PickDsAll(L, Lt) ==
 PickDsBad(L) ==
   \/ \E t \in Letters(1, L) : \E p \in 1..Len(t), bad \in BadNames : inp = DsRec([LinNames(t) EXCEPT ![p] = bad], FALSE, 0)
   \/ \E t \in Letters(3, L) : \E p \in 1..Len(t), bad \in BadNames : inp = DsRec([Translate("DNA", t) EXCEPT ![p] = bad], TRUE, 0)
+\* node keys as a .json file may give them: 1-based, with gaps, shuffled against the residue ids (the 3' residue keeps the
+\* largest key); residue ids starting at 11
+KeysOne(n) == [r \in 1..n |-> r]
+KeysGap(n) == [r \in 1..n |-> 3 * r + 1]
+KeysShuf(n) == [r \in 1..n |-> IF r = n THEN n + 5 ELSE n - r]
+GoodKeys(n) == {KeysZero(n), KeysOne(n), KeysGap(n), KeysShuf(n)}
+PickDsKeys(L, L2) ==
+  \/ \E t \in Letters(1, L) : \E cr \in (IF Len(t) >= 3 THEN BOOLEAN ELSE {FALSE}), ky \in GoodKeys(Len(t)), fi \in {1, 11} :
+        inp = DsRecK(IF cr THEN Translate("DNA", t) ELSE IF Len(t) = 1 THEN <<"DA">> ELSE LinNames(t), cr, 0, ky, fi, 2)
+  \/ \E t \in Letters(L + 1, L2) : \E cr \in BOOLEAN, v \in {<<KeysOne(Len(t)), 1>>, <<KeysZero(Len(t)), 11>>, <<KeysShuf(Len(t)), 5>>} :
+        inp = DsRecK(IF cr THEN Translate("DNA", t) ELSE LinNames(t), cr, 0, v[1], v[2], 2)
+\* node keys whose largest does not sit on the 3' residue (finding F35 dsdna-start-by-node-key, repaired)
+KeysRev(n) == [r \in 1..n |-> n - r]
+KeysMid(n) == [r \in 1..n |-> IF r = (n + 1) \div 2 THEN 2 * n ELSE r - 1]
+PickDsOff(L) ==
+  \E t \in Letters(2, L) : \E cr \in (IF Len(t) >= 3 THEN BOOLEAN ELSE {FALSE}), ky \in {KeysRev(Len(t)), KeysMid(Len(t))} :
+        inp = DsRecK(IF cr THEN Translate("DNA", t) ELSE LinNames(t), cr, 0, ky, 1, 2)
 
 MCPick == CASE Fam = "fasta" -> PickFasta(P1, P2)
             [] Fam = "ig"    -> PickIg(P1, P2)
             [] Fam = "plain" -> (PickTxt(P1) \/ PickSeqList(3, 3) \/ PickJson(3))
             [] Fam = "gen"   -> (PickGen1 \/ PickGen2 \/ PickGen3(P1) \/ PickGenF)
-            [] Fam = "ds"    -> (PickDsAll(P1, P2) \/ PickDsBad(3))
+            [] Fam = "ds"    -> (PickDsAll(P1, P2) \/ PickDsBad(3) \/ PickDsKeys(3, 4) \/ PickDsOff(3))
             \* small instances of the sensitivity runs (one per deviation flag)
             [] Fam = "sensfile" -> (PickFasta(1, 2) \/ PickIgOne \/ PickTxt(2))
             [] Fam = "sensgen"  -> (PickGen1 \/ PickGen2s \/ PickGenFs)
-            [] Fam = "sensds"   -> PickDsAll(3, 3)
+            [] Fam = "sensds"   -> (PickDsAll(3, 3) \/ PickDsKeys(3, 3) \/ PickDsOff(3))
 Init == MCPick /\ InitRest
 Spec == Init /\ [][Next]_vars
 =============================================================================
